@@ -373,6 +373,33 @@ pub fn run(ctx: &mut Ctx) {
         Input::History { lines: vec![Line::new(b, false)] }
     });
     ctx.run_proptest("generated-mutated", &STD, n, mutated, check);
+    // generated continuation fragments (any group size up to 9, any position above 1, any id), one random edit,
+    // checksum re-fixed half the time, on a parser that holds fragments 1..k-1
+    let cont = (2u32..=9, any::<u16>(), prop_oneof![Just(None), (0u32..=9).prop_map(Some), Just(Some(255u32))])
+        .prop_flat_map(|(n, kk, id)| {
+            let k = 2 + ((kk as u32 * (n - 1)) >> 16);
+            (Just((n, k, id)), crate::gen::sentence::spec_with_numbering(crate::refmodel::build::Num::plain(n), crate::refmodel::build::Num::plain(k), id.map(crate::refmodel::build::Num::plain)), any::<u16>(), 0u8..4, any::<u8>(), any::<bool>())
+        })
+        .prop_map(|((n, k, id), mut s, pos, kind, byte, fix)| {
+            s.payload.truncate(60);
+            let mut b = s.render();
+            let i = (pos as usize * b.len()) >> 16;
+            match kind {
+                0 => {
+                    b.remove(i);
+                }
+                1 => b.insert(i, byte),
+                2 => b[i] = byte,
+                _ => {}
+            }
+            if fix {
+                build::fix_checksum(&mut b);
+            }
+            let mut lines: Vec<Line> = (1..k).map(|j| Line::new(build::line(n, j, id, b"A", b"0", 0), false)).collect();
+            lines.push(Line::new(b, false));
+            Input::History { lines }
+        });
+    ctx.run_proptest("continuation-shapes-generated", &STD, n / 3, cont, check_continuation);
     let raw = proptest::collection::vec(any::<u8>(), 0..80).prop_map(|b| Input::History { lines: vec![Line::new(b, false)] });
     ctx.run_proptest("random-bytes", &STD, n / 3, raw, check);
 }
